@@ -263,8 +263,11 @@ func runC04(raw json.RawMessage, w *Writer) {
 		"size": size, "hsize": hsize, "bytes": ints(ref), "hbytes": ints(href)})
 	for _, d := range c.Dsts {
 		which, n, fill := d[0], d[1], d[2] // which: 0 packet, 1 header
-		dst := fillBuf(n, fill)
-		before := cloneBytes(dst)
+		// the destination is a window of a larger arena (spare capacity behind it): a write
+		// past len(dst) lands in bytes the caller still owns
+		arena := fillBuf(n+24, fill)
+		dst := arena[:n]
+		before := cloneBytes(arena)
 		got := -1
 		var err error
 		r, _ := guard(func() {
@@ -275,7 +278,7 @@ func runC04(raw json.RawMessage, w *Writer) {
 			}
 		})
 		w.Emit(Ev{"ev": "marshalto", "which": which, "dstlen": n, "fill": fill, "res": outcome(r, err), "errkind": errKind(err),
-			"n": got, "before": ints(before), "after": ints(dst)})
+			"n": got, "before": ints(before), "after": ints(arena)})
 	}
 }
 
